@@ -9,7 +9,7 @@ CONFIG = {
     },
     "harness": "h_c15",
     "level": "proof",
-    "n": {"quick": 1600, "thorough": 20000},
+    "n": {"quick": 1600, "thorough": 8000},
     "shard": 300,
     "bytes_keys": ["stream", "buf"],
     "rule": "designed cases (every special length x every dispatch kind, every type byte 0..45 with empty payload and with EOF) "
